@@ -100,6 +100,9 @@ def c02(run, vc):
 def c09(run, vc):
     tier = run.tier
     tables = _prep(run, vc)
+    # the encodings of proofs and public keys: an altered text / byte string either does not decode or decodes to
+    # another value (only the upper-case spelling of the hex text is the same value)
+    _multi_stage(run, vc, tables, [("MC_Codec", "MC_Codec_%s.cfg" % tier, lambda v: v["act"] == "Codec" and v["type"] in ("ProofOfPossession", "PublicKey") and v["mut"]["kind"] in ("hex", "point", "trunc", "extend", "prepend"), "altered encodings of proofs of possession and public keys")])
     cfg = "MC_SigNet_pop_%s.cfg" % tier
     r, bad = _tlc_stage(run, vc, "MC_SigNet", cfg, ["PopProve", ("PopVerify", "Ok"), ("PopVerify", "Err"), "Verify"])
     if bad:
@@ -490,6 +493,9 @@ def c20(run, vc):
                                       stdout=subprocess.PIPE, stderr=subprocess.STDOUT))
     for pr in procs:
         pr.wait(timeout=3000)
+        if pr.returncode == 101:
+            run.violations.append(("trace", {"why": "a randomized entry point failed or panicked on an honest call (rng driver aborted): " + pr.stdout.read().decode()[-800:]}))
+            return run.finish()
         if pr.returncode != 0:
             raise vc.ToolError("rng driver failed: " + pr.stdout.read().decode()[-2000:])
     merged = os.path.join(vc.WORK, "c20_rng.trace.ndjson")
